@@ -17,9 +17,9 @@ var c13Str *eng.Kind[StrCase]
 
 func init() {
 	c := eng.Register(&eng.Check{
-		ID:    "C13",
-		Title: "String literals round-trip every text through quoting and escaping",
-		Rule: "21 atoms (letters that would form accidental escapes after a mishandled backslash, space, both quotes, backslash, LF, CR, TAB, BS, FF, VT, NUL, 2- and 3-byte UTF-8, U+2028, U+0085, the invalid byte 0xFF): every text up to n atoms x both quote styles x every combination of the equivalent escape forms of each atom (named escape, \\xHH lower/upper, \\uHHHH, raw where allowed); the evaluated literal must equal the text byte for byte, alone and inside [..], f(..) and a concatenation; every literal left open at a line break or at end of input must be rejected; distinct = distinct texts",
+		ID:          "C13",
+		Title:       "String literals round-trip every text through quoting and escaping",
+		Rule:        "21 atoms (letters that would form accidental escapes after a mishandled backslash, space, both quotes, backslash, LF, CR, TAB, BS, FF, VT, NUL, 2- and 3-byte UTF-8, U+2028, U+0085, the invalid byte 0xFF): every text up to n atoms x both quote styles x every combination of the equivalent escape forms of each atom (named escape, \\xHH lower/upper, \\uHHHH, raw where allowed); the evaluated literal must equal the text byte for byte, alone and inside [..], f(..) and a concatenation; every literal left open at a line break or at end of input must be rejected; distinct = distinct texts",
 		TrustedBase: []string{"reference escaper in checks/c13.go"},
 		Run:         runC13,
 	})
